@@ -16,15 +16,18 @@
      fix_f06  MakeTree checks that the description has a root      (C07-F06)
      fix_f07  GetRoster skips requested-but-absent entries          (C07-F07)
      fix_f08  checkPendingTreeMarshal unlocks on its early return   (C07-F08)
-     fix_n1   a tree from a peer is stored only while its id is requested and
-              not yet received; pending descriptions are used once  (C06-N1)
+     fix_n1   a tree response / bare description is accepted only while its id is
+              requested and not yet received; pending descriptions are used once
+              and never replace a tree that is present               (C06-N1)
+     fix_n2   MakeTree returns an error for a nil roster (no effect on the
+              handlers, which never pass one)                        (C06-N2)
 
    Model only, no proofs. *)
 From Coq Require Import List Arith Bool.
 Import ListNotations.
 From Onet Require Export Tree.TreeMarshal.
 
-Record fixes := mkFx { fix_f06 : bool; fix_f07 : bool; fix_f08 : bool; fix_n1 : bool }.
+Record fixes := mkFx { fix_f06 : bool; fix_f07 : bool; fix_f08 : bool; fix_n1 : bool; fix_n2 : bool }.
 
 Inductive outcome := Fine | Crashed | Blocked.
 
@@ -143,7 +146,7 @@ Definition handle_send_tree (fx : fixes) (s : cst) (otm : option tmarshal) (oro 
                         | Present => negb (fix_n1 fx)
                         end in
           if negb accept then (s, Fine) else
-          match make_tree gadd (fix_f06 fx) tm (Some ro) with
+          match make_tree gadd (fix_f06 fx) (fix_n2 fx) tm (Some ro) with
           | Ok t => (register_tree s t, Fine)
           | Err => (s, Fine)
           | Crash => (s, Crashed)
@@ -173,9 +176,10 @@ Fixpoint make_pending (fx : fixes) (s : cst) (sl : list tmarshal) (ro : roster) 
   match sl with
   | [] => (s, Fine)
   | tm :: r =>
-      let skip := fix_n1 fx && negb (match tree_state s (tm_tid tm) with Requested => true | _ => false end) in
+      (* N1: a tree that is present is never replaced *)
+      let skip := fix_n1 fx && (match tree_state s (tm_tid tm) with Present => true | _ => false end) in
       if skip then make_pending fx s r ro else
-      match make_tree gadd (fix_f06 fx) tm (Some ro) with
+      match make_tree gadd (fix_f06 fx) (fix_n2 fx) tm (Some ro) with
       | Ok t => make_pending fx (register_tree s t) r ro
       | Err => make_pending fx s r ro
       | Crash => (s, Crashed)
@@ -252,9 +256,12 @@ Definition step (fx : fixes) (s : cst) (o : op) : cst * list out * outcome :=
       let '(s', oc) := handle_send_tree fx s otm oro in (s', [], oc)
   | PTreeMarshal tm =>
       if tm_tid tm =? 0 then (s, [], Fine) else
-      match tree_state s (tm_tid tm) with
-      | Absent => (s, [], Fine)
-      | _ =>
+      let awaited := match tree_state s (tm_tid tm) with
+                     | Absent => false
+                     | Requested => true
+                     | Present => negb (fix_n1 fx)
+                     end in
+      if negb awaited then (s, [], Fine) else
           match inst_roster s (c_insts s) (tm_rid tm) None with
           | Crash | Err => (s, [], Crashed)
           | Ok None =>
@@ -265,7 +272,6 @@ Definition step (fx : fixes) (s : cst) (o : op) : cst * list out * outcome :=
           | Ok (Some ro) =>
               let '(s', oc) := handle_send_tree fx s (Some tm) (Some ro) in (s', [], oc)
           end
-      end
   | PRequestRoster rid nil_first =>
       let has_bad := existsb bad_entry (c_store s) in
       let found := first_some (entry_roster rid) (c_store s) in
@@ -344,3 +350,10 @@ Arguments step {G}.
 Arguments run {G}.
 Arguments asks {G}.
 Arguments asked {G}.
+Arguments set_store {G}.
+Arguments set_pend {G}.
+Arguments set_plock {G}.
+Arguments set_insts {G}.
+Arguments set_parked {G}.
+Arguments bad_entry {G}.
+Arguments entry_roster {G}.
